@@ -45,6 +45,8 @@ func TestVerif(t *testing.T) {
 		verifC09(t, r, out) // the receive-retry clause of C10 is the listener's loop
 		verifC10Group(t, r, out)
 		verifC10GroupQ(t, r, out)
+		// several transmissions failing while in flight together: the task must still end
+		verifConcurrentFailures(t, out)
 	case "C11":
 		// nothing in virtual time: the network-namespace scenario (TestVerifNetns) is this
 		// package's part of C11
